@@ -10,3 +10,9 @@ Example C03_nonvacuous :
   wf_event (Data 513 65535 3 [0; 255; 7]) = true /\ wf_event (Message 1 2 3 (MU32 4294967295)) = true /\
   wf_event (BcmAnimate 7 8 9 100000 (RgbwB 1 2 3 4 5)) = true.
 Proof. repeat split; reflexivity. Qed.
+
+(* the check's own oracle cannot reject an implementation that behaves like the model: the extracted checker
+   ok_C03, applied to the model's observation for ANY well-formed event, reports no failing clause *)
+Require Import RP.Glue.Wire RP.Glue.StreamEV RP.Lemmas.GlueLemmas.
+Theorem C03_checker_accepts_model : forall e, wf_event e = true -> ok_C03 (event_fields e) (run_EV (event_fields e)) = [].
+Proof. exact ok_C03_accepts_model. Qed.
